@@ -6,8 +6,13 @@ OUT=seeded/MATRIX.md
 echo "| seeded change | needs | check | result | violation kind |" > $OUT.tmp
 echo "|---|---|---|---|---|" >> $OUT.tmp
 run_one() {
-  d="$1"; id=$(basename $d); prop=${id%-*}
-  res=$(MUT_TIER=quick tools/mutant.sh $d/patch.diff $prop 2>&1 | grep -E "^(CAUGHT|MISSED|PATCH-FAILED)" | head -1)
+  d="$1"; id=$(basename $d); prop=${id:0:3}
+  # the property's own check first, then any other check recorded as catching it when the change was confirmed
+  others=$(/venv/bin/python -c "import json; m=json.load(open('$d/meta.json')); print(' '.join(c['check'] for c in m.get('checks',[]) if c['check']!='$prop' and c.get('exit')==1))" 2>/dev/null)
+  for chk in $prop $others; do
+    res=$(MUT_TIER=quick tools/mutant.sh $d/patch.diff $chk 2>&1 | grep -E "^(CAUGHT|MISSED|PATCH-FAILED)" | head -1)
+    case "$res" in CAUGHT*) prop=$chk; break;; esac
+  done
   kind=$(echo "$res" | sed -n 's/.*violation kind=//p')
   st=$(echo "$res" | cut -d' ' -f1)
   need=$(/venv/bin/python -c "import json,sys; m=json.load(open('$d/meta.json')); print(m['needs_to_manifest'].splitlines()[0][:110].replace('|','/'))" 2>/dev/null)
